@@ -369,12 +369,13 @@ package updown
 //@ spec resultOfTR(k int) int uninterpreted
 //@ func TopRanking spawns
 //@   modifies everything
+//@   before call:checkArgs#1: assert [c18.args.wiring] arg(0) == old(sizetotal) && arg(1) == old(sizeup) && arg(2) == old(sizedown) && arg(3) == old(sizeside) && arg(4) == old(sizesame) && arg(5) == old(distall) && arg(6) == old(distup) && arg(7) == old(distdown) && arg(8) == old(distside) && arg(9) == old(distpush)
 //@   after if#1: assert [c18.args] err == nil
 //@   after if#4: assert [c18.oneref] len(temp) == 1
 //@   before call:ReadEncodeAlignmentToList#1: assert [c09.reference.soft] arg(0) == reference && arg(1) == false
 //@   after assign:cSplitDone#1: assume [env.results] forall(k, 0, nQ, 0 <= resultOfTR(k) && resultOfTR(k) < nQ && envat(cResults, resultOfTR(k)).qidx == k) && forall(j, 0, nQ, 0 <= envat(cResults, j).qidx && envat(cResults, j).qidx < nQ && resultOfTR(envat(cResults, j).qidx) == j)
 //@   after assign:cSplitDone#1: assume [env.errors] forallint(k, envat(cErr, k) != nil)
-//@   before call:splitInput#1: assert [c08.options] sameslice(arg(0), queries) && sameslice(arg(1), ignoreArray) && arg(2) == sizeArray && arg(3) == nofill && arg(4) == distArray && (arg(5) == threshpair || (isnan(arg(5)) && isnan(threshpair))) && arg(6) == threshtarg && arg(7) == distpush && arg(8) == cudL && arg(9) == cResults
+//@   before call:splitInput#1: assert [c08.options] sameslice(arg(0), queries) && sameslice(arg(1), ignoreArray) && arg(2) == sizeArray && arg(3) == old(nofill) && arg(4) == distArray && (arg(5) == old(threshpair) || (isnan(arg(5)) && isnan(old(threshpair)))) && arg(6) == old(threshtarg) && arg(7) == old(distpush) && arg(8) == cudL && arg(9) == cResults
 //@   before call:readCSVToUDLChan#1: assert [c09.target.csv] t_in_type == "csv" && arg(0) == target && arg(1) == cudL
 //@   before call:readFastaToUDLChan#1: assert [c09.target.fasta] t_in_type == "fasta" && arg(0) == target && sameslice(arg(1), refSeq) && arg(2) == cudL
 //@   loop 1:
